@@ -69,6 +69,8 @@
     ensures
         (a is Station && b is Station) ==> r == Some(&self.sp_trip(a->Station_0, b->Station_0)),
         !(a is Station && b is Station) ==> r is None,
+//@first
+        proof { lemma_locations_wf2(self, a, b); }
 //@end
 //@item model/src/locations.rs Locations::distance
 //@retname r
@@ -108,6 +110,8 @@
         self.locations.has(n1.sp_end_location()), self.locations.has(n2.sp_start_location()),
     ensures r == rule_min_duration(&self.config, &self.locations, n1, n2),
         r is Length ==> r->Length_0.seconds < 0x4_0000_0000_0000,
+//@first
+        proof { lemma_locations_wf2(&self.locations, n1.sp_end_location(), n2.sp_start_location()); }
 //@end
 //@item model/src/network.rs Network::minimal_duration_between_nodes
 //@retname r
@@ -144,8 +148,6 @@
         proof {
             assert(self.nodes@.contains_key(node1) && self.nodes@.contains_key(node2));
             let l1 = self.sp_node(node1).sp_end_location(); let l2 = self.sp_node(node2).sp_start_location();
-            if l1 is Station && l2 is Station {
-                assert(self.locations.stations@.contains_key(l1->Station_0) && self.locations.stations@.contains_key(l2->Station_0));
-            }
+            lemma_locations_wf2(&self.locations, l1, l2);
         }
 //@end
